@@ -69,9 +69,50 @@ func convertLineInto(ex *currency.ExchangeRate, line *Line) *Line {
 		l2.Charges = rows
 	}
 
+	// the copy is calculated on its own: it must not share its sub-lines with the original
+	l2.Breakdown = copySubLines(line.Breakdown)
+	l2.Substituted = copySubLines(line.Substituted)
+
 	l2i.Price = &price
 	l2.Item = &l2i
 	return &l2
+}
+
+func copySubLines(sls []*SubLine) []*SubLine {
+	if len(sls) == 0 {
+		return nil
+	}
+	out := make([]*SubLine, len(sls))
+	for i, sl := range sls {
+		if sl == nil {
+			continue
+		}
+		s2 := *sl
+		if sl.Item != nil {
+			it := *sl.Item
+			s2.Item = &it
+		}
+		if len(sl.Discounts) > 0 {
+			s2.Discounts = make([]*LineDiscount, len(sl.Discounts))
+			for j, d := range sl.Discounts {
+				if d != nil {
+					d2 := *d
+					s2.Discounts[j] = &d2
+				}
+			}
+		}
+		if len(sl.Charges) > 0 {
+			s2.Charges = make([]*LineCharge, len(sl.Charges))
+			for j, c := range sl.Charges {
+				if c != nil {
+					c2 := *c
+					s2.Charges[j] = &c2
+				}
+			}
+		}
+		out[i] = &s2
+	}
+	return out
 }
 
 func convertDiscountsInto(ex *currency.ExchangeRate, discounts []*Discount) []*Discount {
@@ -115,6 +156,18 @@ func convertPaymentDetailsInto(ex *currency.ExchangeRate, pd *PaymentDetails) *P
 		return nil
 	}
 	p2 := *pd
+	if pd.Terms != nil {
+		// due date amounts are recalculated in the new currency: not in the original's terms
+		t2 := *pd.Terms
+		t2.DueDates = make([]*pay.DueDate, len(pd.Terms.DueDates))
+		for i, dd := range pd.Terms.DueDates {
+			if dd != nil {
+				d2 := *dd
+				t2.DueDates[i] = &d2
+			}
+		}
+		p2.Terms = &t2
+	}
 	if len(pd.Advances) == 0 {
 		return &p2
 	}
